@@ -28,6 +28,11 @@ type C06Case struct {
 	Size   int64  `json:"size"` // MAIL SIZE= value
 	// SizeStr (kind "sizebig"): a declared size at the integer boundaries, as text
 	SizeStr string `json:"size_str,omitempty"`
+	// Sep (kind "sizebig"): what separates the path from SIZE=: "" one space | none | tab | two
+	Sep string `json:"sep,omitempty"`
+	// Inter (kind "bdat"): a command sent between the chunks (it may be refused, it may even end the transaction: only
+	// the octet bound and "never complete above the limit" are judged then)
+	Inter string `json:"inter,omitempty"`
 }
 
 // dataMessage returns a message of exactly m octets as the backend should see
@@ -70,7 +75,11 @@ func c06Run(c C06Case, limit int64) (*h.Obs, int, string) {
 	nCmd := 0 // replies expected before the part under test
 	switch c.Kind {
 	case "sizebig":
-		fmt.Fprintf(&in, "MAIL FROM:<ok@a.example> SIZE=%s\r\nRCPT TO:<okprobe@x>\r\nNOOP\r\n", c.SizeStr)
+		sep := " "
+		if c.Sep != "" {
+			sep = map[string]string{"none": "", "tab": "\t", "two": "  "}[c.Sep]
+		}
+		fmt.Fprintf(&in, "MAIL FROM:<ok@a.example>%sSIZE=%s\r\nRCPT TO:<okprobe@x>\r\nNOOP\r\n", sep, c.SizeStr)
 		nCmd = 2
 	case "size":
 		fmt.Fprintf(&in, "MAIL FROM:<ok@a.example> SIZE=%d\r\nRCPT TO:<okprobe@x>\r\nNOOP\r\n", c.Size)
@@ -94,6 +103,9 @@ func c06Run(c C06Case, limit int64) (*h.Obs, int, string) {
 			pl := []byte(strings.Repeat("a", k))
 			for i := 63; i < len(pl); i += 64 {
 				pl[i] = '\n'
+			}
+			if i > 0 && c.Inter != "" {
+				in.WriteString(c.Inter + "\r\n")
 			}
 			fmt.Fprintf(&in, "BDAT %d%s\r\n%s", k, last, pl)
 			sum += int64(k)
@@ -145,6 +157,9 @@ func obsDigest(o *h.Obs) string {
 func evalC06(c C06Case) *h.Finding {
 	o, _, in := c06Run(c, c.N)
 	desc := fmt.Sprintf("kind=%s mode=%s N=%d m=%d dots=%t chunks=%v buf=%d peroctet=%t size=%d", c.Kind, c.Mode, c.N, c.M, c.Dots, c.Chunks, c.Buf, c.PerOct, c.Size)
+	if c.Inter != "" || c.Sep != "" || c.SizeStr != "" {
+		desc += fmt.Sprintf(" sizestr=%q sep=%q between-chunks=%q", c.SizeStr, c.Sep, c.Inter)
+	}
 	if f := o.Sanity("c06", desc); f != nil {
 		return f
 	}
@@ -168,8 +183,18 @@ func evalC06(c C06Case) *h.Finding {
 		if len(o.Replies) != 5 || o.Replies[2].Class() != 5 || o.Replies[3].Class() != 5 || o.Replies[4].Code != 250 {
 			return h.F("c06-size-reply", "%s: SIZE=%s: replies %s, want 220 250 5xx 5xx 250", desc, c.SizeStr, o.Codes())
 		}
-		if c.SizeStr == "4294967295" && o.Replies[2].Code != 552 {
+		if c.SizeStr == "4294967295" && c.Sep == "" && o.Replies[2].Code != 552 {
 			return h.F("c06-size-reply", "%s: SIZE=%s is a 32-bit value above the limit: reply %s, want 552", desc, c.SizeStr, o.Replies[2].String())
+		}
+		return nil
+	}
+	if c.Inter != "" {
+		// with a command between the chunks the reply sequence depends on what that command does; what is judged is
+		// the octet bound (above) and that nothing above the limit is ever reported complete
+		for _, e := range o.Trace {
+			if (e.Kind == "Data" || e.Kind == "LMTPData") && e.ReadErr == "EOF" && c.N > 0 && int64(c.M) > c.N && e.From == "ok@a.example" && len(e.Body) == c.M {
+				return h.F("c06-over-limit-eof", "%s: a message of %d octets was reported complete", desc, len(e.Body))
+			}
 		}
 		return nil
 	}
@@ -451,7 +476,7 @@ func C06(tier string) int {
 	if tier == "thorough" {
 		Ns = []int64{1, 2, 3, 5, 8, 13, 64, 4096, 4097}
 	}
-	run.Rule = fmt.Sprintf("limits N in %v x message sizes N-2..N+2 and 4N x {DATA (plain and dot-stuffed lines), every division into <=3 BDAT chunks incl. empty ones} x backend read sizes {1,3,N,4096} x {one segment, one octet per segment} x {SMTP, LMTP, LMTP per-recipient}; MAIL SIZE=s for s in {0,1,N-1,N,N+1,10N} for N and for no limit, and s at the integer boundaries (2^32-1, 2^32, 2^63-1, 2^63, 2^63+100, 2^64-1, 2^64, 10^23: refused, backend not consulted); BDAT with a declared size at the integer boundaries (2^32-1, 2^32, 2^63-1, 2^63, 2^64-100, 2^64-1, 2^64, 10^23) as first or second chunk, with and without LAST, followed by an over-limit LAST chunk. Plus EVERY message body over the class alphabet {'.',CR,LF,'a'} of <=%d octets (reader seam: read sizes {1,2,3,4096}) / <=%d octets (full server path, modes %v, read sizes {1,4096}) x EVERY limit 1..size+1 x {one segment, one octet per segment}, so that every octet pattern (end-marker look-alikes, dots, bare CR/LF) sits at every offset relative to the limit. Distinct by construction; non-trivial = size within 2 of the limit or above it. Oracle: backend octets <= N; over the limit: reader fails (no EOF), 552, probe RCPT refused; within: observation identical to the same conversation on a server without limit (differential).", Ns, map[bool]int{false: 7, true: 9}[tier == "thorough"], map[bool]int{false: 5, true: 6}[tier == "thorough"], map[bool][]string{false: {"smtp"}, true: {"smtp", "lmtp", "lmtp-rcpt"}}[tier == "thorough"])
+	run.Rule = fmt.Sprintf("limits N in %v x message sizes N-2..N+2 and 4N x {DATA (plain and dot-stuffed lines), every division into <=3 BDAT chunks incl. empty ones} x backend read sizes {1,3,N,4096} x {one segment, one octet per segment} x {SMTP, LMTP, LMTP per-recipient}; every chunk division of >=2 chunks also with a command {MAIL, RCPT, NOOP, DATA, unknown, MAIL SIZE=1} between the chunks (octet bound only); MAIL SIZE=s for s in {0,1,N-1,N,N+1,10N} for N and for no limit, SIZE above the limit glued to the path / behind TAB / behind two spaces (never accepted), and s at the integer boundaries (2^32-1, 2^32, 2^63-1, 2^63, 2^63+100, 2^64-1, 2^64, 10^23: refused, backend not consulted); BDAT with a declared size at the integer boundaries (2^32-1, 2^32, 2^63-1, 2^63, 2^64-100, 2^64-1, 2^64, 10^23) as first or second chunk, with and without LAST, followed by an over-limit LAST chunk. Plus EVERY message body over the class alphabet {'.',CR,LF,'a'} of <=%d octets (reader seam: read sizes {1,2,3,4096}) / <=%d octets (full server path, modes %v, read sizes {1,4096}) x EVERY limit 1..size+1 x {one segment, one octet per segment}, so that every octet pattern (end-marker look-alikes, dots, bare CR/LF) sits at every offset relative to the limit. Distinct by construction; non-trivial = size within 2 of the limit or above it. Oracle: backend octets <= N; over the limit: reader fails (no EOF), 552, probe RCPT refused; within: observation identical to the same conversation on a server without limit (differential).", Ns, map[bool]int{false: 7, true: 9}[tier == "thorough"], map[bool]int{false: 5, true: 6}[tier == "thorough"], map[bool][]string{false: {"smtp"}, true: {"smtp", "lmtp", "lmtp-rcpt"}}[tier == "thorough"])
 	run.Assumptions = []string{"message size = octets after dot-unstuffing, incl. the CRLF in front of the end marker (RFC 1870)", "the backend reads the message to the end and returns the reader's error (a backend that stops early and returns nil claims success itself)", "a declared SIZE >= 2^32 may be refused with 501 (number not parsed) instead of 552; it must be refused without consulting the backend"}
 	var cases []C06Case
 	seen := map[string]bool{}
@@ -489,6 +514,11 @@ func C06(tier string) int {
 							if N <= 100 {
 								compositions(m, 3, func(parts []int) {
 									add(C06Case{Kind: "bdat", Mode: mode, N: N, M: m, Chunks: append([]int(nil), parts...), Buf: buf, PerOct: per})
+									if len(parts) >= 2 && buf == 4096 && !per && int64(m) >= N {
+										for _, inter := range []string{"MAIL FROM:<ok@i.example>", "RCPT TO:<ok@i.example>", "NOOP", "DATA", "FOOB", "MAIL FROM:<ok@i.example> SIZE=1"} {
+											add(C06Case{Kind: "bdat", Mode: mode, N: N, M: m, Chunks: append([]int(nil), parts...), Buf: buf, Inter: inter})
+										}
+									}
 								})
 							} else {
 								for _, parts := range [][]int{{m}, {m - 1, 1}, {1, m - 1}, {int(N), m - int(N)}, {m, 0}} {
@@ -503,6 +533,12 @@ func C06(tier string) int {
 			}
 			for _, big := range []string{"4294967295", "4294967296", "9223372036854775807", "9223372036854775808", "9223372036854775908", "18446744073709551615", "18446744073709551616", "99999999999999999999999"} {
 				add(C06Case{Kind: "sizebig", Mode: mode, N: N, SizeStr: big, Buf: 4096})
+			}
+			// a declared size above the limit glued to the path, behind a TAB or behind two spaces: however the server
+			// reads such a line, it must not accept it and open a transaction
+			for _, sep := range []string{"none", "tab", "two"} {
+				add(C06Case{Kind: "sizebig", Mode: mode, N: N, SizeStr: fmt.Sprint(N + 1), Sep: sep, Buf: 4096})
+				add(C06Case{Kind: "sizebig", Mode: mode, N: N, SizeStr: fmt.Sprint(10 * N), Sep: sep, Buf: 4096})
 			}
 			for _, lim := range []int64{N, 0} {
 				for _, s := range []int64{0, 1, N - 1, N, N + 1, 10 * N} {
